@@ -88,6 +88,22 @@ Theorem C13_model_refines_spec : forall ops names letters,
 Proof. exact model_refines_spec. Qed.
 Print Assumptions C13_model_refines_spec.
 
+(* references held by the caller are just names: an operation through an option&/group& obtained earlier is the
+   same operation addressed by name, whatever happened in between (parses, moves, other declarations); together with
+   the theorems above, which hold after ANY operation list including held-handle operations, the parse verdict
+   depends on the current declarations only *)
+Theorem C13_held_object_is_name : forall p gn k n x,
+  declared p (gn, k, n) -> step p (OHSet (gn, k, n) x) = step p (OSet (GNamed gn) k n x).
+Proof. exact held_object_is_name. Qed.
+Print Assumptions C13_held_object_is_name.
+
+Theorem C13_held_group_is_name : forall p g k n,
+  gfind p g <> None ->
+  step p (OHDecl g k n None) = step p (ODecl (GNamed g) k n) /\
+  forall x, step p (OHDecl g k n (Some x)) = step p (OSet (GNamed g) k n x).
+Proof. exact held_group_is_name. Qed.
+Print Assumptions C13_held_group_is_name.
+
 (* non-vacuity: concrete instances *)
 Module Examples.
 Import Strings.String.
@@ -119,4 +135,13 @@ Example C13_ex_k1_accepted :
   let p := state_after [ODecl GDirect KToggle a; OSet GDirect KOpt (B "no-a") SDefault] in
   parse_empty p = POk /\ k1_name p (B "no-a") = true /\ declared p (default_key, KOpt, B "no-a").
 Proof. vm_compute. repeat split. discriminate. Qed.
+(* parse accepts, then a clash is introduced through held references, then parse refuses (also across a move) *)
+Example C13_ex_held_clash :
+  snd (run [OSet GDirect KToggle a (SShort x); OSet GDirect KToggle b SDefault; OParse; OMove;
+            OHSet (default_key, KToggle, b) (SShort x); OParse])
+  = [ROk (default_key, KToggle, a); ROk (default_key, KToggle, b); RParse POk; RMoved; ROk (default_key, KToggle, b); RParse PDev]
+  /\ snd (run [OGroup g1; OSet GDirect KToggle a (SShort x); OParse; OHDecl g1 KToggle b (Some (SShort x)); OParse;
+               OHSet (g1, KOpt, a) SDefault])
+  = [RGroup g1; ROk (default_key, KToggle, a); RParse POk; ROk (g1, KToggle, b); RParse PDev; RNoHandle].
+Proof. vm_compute. split; reflexivity. Qed.
 End Examples.
